@@ -35,6 +35,17 @@ def blocks_of(d):
     return out
 
 
+def eps_cut(d, n0: int, n1: int) -> float:
+    """the ADWIN bound written out from the configuration (NOT the detector's own routine): eps = sqrt(2 m v d') + (2/3) d' m with
+    d' = ln(2 ln(width) / delta), m = 1/(n0 - k) + 1/(n1 - k), k = min_window_size + 1, v = variance / width"""
+    delta, k = float(d.config.delta), int(d.config.min_window_size) + 1
+    width, var = int(d.width), float(d.variance)
+    dp = math.log(2.0 * math.log(width) / delta)
+    m = 1.0 / (n0 - k) + 1.0 / (n1 - k)
+    inner = 2.0 * m * (var / width) * dp
+    return (math.sqrt(inner) if inner >= 0 else math.nan) + 2.0 / 3.0 * dp * m
+
+
 def exceeds_any_boundary_split(d) -> bool:
     """does SOME split of the window into older/newer parts along bucket boundaries exceed the code's bound?"""
     bl = blocks_of(d)
@@ -47,7 +58,7 @@ def exceeds_any_boundary_split(d) -> bool:
         t0 += tot
         t1 -= tot
         if n1 > mw and n0 > mw and n0 != mw + 1 and n1 != mw + 1:
-            thr = float(d._calculate_threshold(w0_instances=n0, w1_instances=n1))
+            thr = eps_cut(d, n0, n1)
             if abs(t0 / n0 - t1 / n1) > thr * (1 - 1e-9):
                 return True
     return False
@@ -67,7 +78,7 @@ def examined_exceeds(d) -> bool:
             t0 += float(b.total[j])
             t1 -= float(b.total[j])
             if n1 > mw and n0 > mw and n0 != mw + 1 and n1 != mw + 1:
-                thr = float(d._calculate_threshold(w0_instances=n0, w1_instances=n1))
+                thr = eps_cut(d, n0, n1)
                 if abs(t0 / n0 - t1 / n1) > thr * (1 + 1e-9):
                     return True
     return False
